@@ -113,13 +113,7 @@ impl<'a> RefName<'a> {
     }
 
     pub(crate) fn from_node(xot: &'a Xot, node: Node, name_id: NameId) -> Result<Self, Error> {
-        let namespace_id = xot.namespace_for_name(name_id);
-        let prefix_id = if namespace_id != xot.no_namespace() {
-            xot.prefix_for_namespace(node, namespace_id)
-                .ok_or_else(|| Error::MissingPrefix(xot.namespace_str(namespace_id).to_string()))?
-        } else {
-            xot.empty_prefix()
-        };
+        let prefix_id = xot.prefix_for_name(node, name_id)?;
         Ok(Self::new(xot, name_id, prefix_id))
     }
 
